@@ -265,9 +265,16 @@ func (h *Handler) saveConfig(fname string) (err error) {
 		return err
 	}
 
-	err = ioutil.WriteFile(fname, stream, os.ModePerm)
+	// Write to a temporary file and rename it over the lease file: a crash in the middle of a plain
+	// rewrite leaves a truncated file that may still parse, with a shortened address in its last lease.
+	tmp := fname + ".tmp"
+	err = ioutil.WriteFile(tmp, stream, os.ModePerm)
 	if err != nil {
-		fmt.Printf("error cannot write dhcp file: %s error %s", fname, err)
+		fmt.Printf("error cannot write dhcp file: %s error %s", tmp, err)
+		return err
+	}
+	if err = os.Rename(tmp, fname); err != nil {
+		fmt.Printf("error cannot replace dhcp file: %s error %s", fname, err)
 		return err
 	}
 
